@@ -117,6 +117,22 @@ func (kr *Keyring) Name(addr []byte) string {
 	return n
 }
 
+// NameAddr names an address field the way the ledgers identify it: by its 32-byte ledger key (the address right-padded
+// with zeros or cut to 32 bytes).  A field that is not 20 bytes long but has the key of a 20-byte address is that address.
+func (kr *Keyring) NameAddr(addr []byte) string {
+	if len(addr) == 20 || len(addr) == 0 {
+		return kr.Name(addr)
+	}
+	var k [32]byte
+	copy(k[:], addr)
+	for _, b := range k[20:] {
+		if b != 0 {
+			return kr.Name(k[:])
+		}
+	}
+	return kr.Name(k[:20])
+}
+
 // NameKey32 renames a 32-byte ledger key that holds a right-padded 20-byte address.
 func (kr *Keyring) NameKey32(k [32]byte) string { return kr.Name(k[:20]) }
 
